@@ -43,27 +43,28 @@ Proof. destruct o; cbn; split; intros H; try discriminate; try contradiction; au
 Lemma pop_n_sto n : forall s, sto (store (pop_n n s)) = sto (store s).
 Proof.
   induction n; intros s; cbn [pop_n]; [reflexivity|]. rewrite IHn.
-  unfold pop_step. destruct (task s); [|reflexivity]. destruct (tfin s); [reflexivity|].
+  unfold pop_step. destruct (thr (th s)); [reflexivity|].
+  destruct (task s); [|reflexivity]. destruct (tfin s); [reflexivity|].
   destruct (nth_error _ _); proj; apply ensure_loaded_sto.
 Qed.
 
 (* one operation *)
 Lemma browse_step c s o :
-  Inv s -> browse_op o ->
+  thr (th s) = false -> Inv s -> browse_op o ->
   let s' := step_state c s o in
   (length (wl s) <= length (wl s'))%nat /\ sto (store s') = sto (store s) /\
   forall r, (r < length (wl s))%nat -> (edit_b o = true -> r <> rpos s) ->
             rnth (wl s') r = rnth (wl s) r.
 Proof.
-  intros HI [Ho|[Ho|[Ho|Ho]]] s'.
-  - destruct (nav_step_frame c s o Ho) as (A & B & _). fold s' in A, B.
+  intros Ht HI [Ho|[Ho|[Ho|Ho]]] s'.
+  - destruct (nav_step_frame c s o Ht Ho) as (A & B & _). fold s' in A, B.
     rewrite A, B. repeat split; auto.
-  - destruct (edit_step_spec c s o HI Ho) as (A & _ & _ & W & Len & Oth). fold s' in A, W, Len, Oth.
+  - destruct (edit_step_spec c s o Ht HI Ho) as (A & _ & _ & W & Len & Oth). fold s' in A, W, Len, Oth.
     rewrite A. repeat split; [lia|].
     intros r Hr Hne. specialize (Hne (proj1 (is_edit_b o) Ho)).
     unfold rnth. rewrite !nth_error_rev' by lia. rewrite Len. apply Oth.
     unfold rpos, Inv, len in *. lia.
-  - unfold s'. rewrite step_state_eq.
+  - unfold s'. rewrite step_state_eq by exact Ht.
     destruct (flush_frame c (snd (fst (step_core c s o)))) as (A & B & _). rewrite A, B.
     assert (P : exists n, snd (fst (step_core c s o)) = pop_n n s).
     { destruct o; cbn [is_pop] in Ho; try contradiction; cbn [step_core ok fst snd];
@@ -71,9 +72,9 @@ Proof.
     destruct P as (n & ->). destruct (pop_n_shift n s) as (_ & new & E).
     rewrite E, pop_n_sto. repeat split; [rewrite app_length; lia|].
     intros r Hr _. unfold rnth. rewrite rev_app_distr. apply nth_error_app1. rewrite rev_length. exact Hr.
-  - subst o. unfold s'. rewrite step_state_eq. cbn [step_core ok fst snd].
+  - subst o. unfold s'. rewrite step_state_eq by exact Ht. cbn [step_core ok fst snd].
     destruct (flush_frame c (load_start s)) as (A & B & _). rewrite A, B.
-    unfold load_start. destruct (task s); proj; repeat split; auto.
+    unfold load_start. rewrite Ht. destruct (task s); proj; repeat split; auto.
 Qed.
 
 Lemma browse_wf o : browse_op o -> wf_op o \/ exists i, o = OGoto i.
@@ -81,17 +82,18 @@ Proof. intros _. destruct o; cbn; auto. right; eexists; reflexivity. Qed.
 
 (* any interleaving *)
 Theorem browse_steps c ops : forall s,
-  Inv s -> Forall wf_op ops -> Forall browse_op ops ->
+  thr (th s) = false -> Inv s -> Forall wf_op ops -> Forall browse_op ops ->
   (length (wl s) <= length (wl (steps c s ops)))%nat /\
   sto (store (steps c s ops)) = sto (store s) /\
   forall r, (r < length (wl s))%nat -> ~ In r (touched c s ops) ->
             rnth (wl (steps c s ops)) r = rnth (wl s) r.
 Proof.
-  induction ops as [|o rest IH]; intros s HI Hwf Hb; cbn [steps fold_left touched].
+  induction ops as [|o rest IH]; intros s Ht HI Hwf Hb; cbn [steps fold_left touched].
   - repeat split; auto.
   - inversion Hwf; subst. inversion Hb; subst.
-    destruct (browse_step c s o HI H3) as (L1 & S1 & K1).
-    destruct (IH (step_state c s o) (step_inv c s o H1 HI) H2 H4) as (L2 & S2 & K2).
+    destruct (browse_step c s o Ht HI H3) as (L1 & S1 & K1).
+    assert (Ht' : thr (th (step_state c s o)) = false) by (rewrite step_thr; exact Ht).
+    destruct (IH (step_state c s o) Ht' (step_inv c s o H1 HI) H2 H4) as (L2 & S2 & K2).
     fold (steps c (step_state c s o) rest) in *.
     repeat split; [lia | congruence|].
     intros r Hr Hnot. rewrite in_app_iff in Hnot.
@@ -112,13 +114,14 @@ Proof.
 Qed.
 
 Lemma new_session_clean s :
-  Coh (store s) ->
+  thr (th s) = false -> Coh (store s) ->
   let s' := pop_all (load_start (reopen s)) in
   wl s' = sto (store s) ++ [[]] /\ wi s' = len (sto (store s)) /\ text s' = [] /\
   sto (store s') = sto (store s) /\ hst s' = None.
 Proof.
-  intros Hc. unfold reopen.
-  destruct (reset_clean (set_store s (mkst [] (sto (store s)) false)) [] 0 (coh_init _))
-    as (A & B & C & _ & D & E & _).
+  intros Ht Hc. unfold reopen.
+  assert (Ht' : thr (th (set_th (set_store s (mkst [] (sto (store s)) false)) (mkth (thr (th s)) 0 false [] 0))) = false)
+    by (proj; exact Ht).
+  destruct (reset_clean _ [] 0 Ht' (coh_init _)) as (A & B & C & _ & D & E & _).
   proj. auto.
 Qed.
